@@ -1379,3 +1379,96 @@ def truth(self, ctx, v):
 
 
 Engine.truth = truth
+
+
+# ---------------------------------------------------------------------------------------------------- min/max(set, key=f)
+ASSUMED.update({
+    "min/max(set, key=f)": "min(S, key=f) / max(S, key=f) over a finite set of objects: ValueError iff S is empty; f is "
+                           "evaluated on every member (an exception of f leaves the call); the result is a member whose key "
+                           "is minimal / maximal; keys of different Python classes are not comparable (str against a number: "
+                           "TypeError - excluded only if the solver shows that all members yield keys of one class)",
+})
+
+
+def _install_argminmax():
+    from . import loops
+
+    orig = loops.argminmax_iter
+
+    def argminmax_iter(engine, ctx, it, keyfn, is_min):
+        src = it
+        if isinstance(src, Obj) and src.cls.lookup("__iter__") is not None:
+            src = engine.call_function(ctx, src.cls.lookup("__iter__"), [src], {}, dynamic=True)
+        if not (isinstance(src, SymSet) and src.elem_sort == V.RefSort):
+            return orig(engine, ctx, it, keyfn, is_min)
+        S = src.term
+        x = z3.FreshConst(V.RefSort, "x")
+        anyk = V.ObjOf("pydsdl._expression._any.Any")
+        k = ctx.choose(3)
+        if k == 0:  # empty collection
+            ctx.assume(z3.ForAll([x], z3.Not(z3.Select(S, x)), patterns=[z3.Select(S, x)]))
+            raise engine.lib.raise_ext("ValueError", "min()/max() of an empty collection")
+        if k == 1:  # witness: the key function on one arbitrary member (exceptions leave; every path explored)
+            a = ctx.fresh("member", V.RefSort)
+            ctx.assume(z3.Select(S, a))
+            oa = anyk.wrap(ctx, a)
+            engine.assume_class_range(ctx, oa)
+            engine.call(ctx, keyfn, [oa], {})
+            raise PathEnd()
+        # the key function completes on every member
+        a = ctx.fresh("ka", V.RefSort)
+        bind = loops.Binding(None, [z3.Select(S, a)], [a], [z3.Select(S, a)])
+        keys = []
+
+        def run():
+            oa = anyk.wrap(ctx, a)
+            engine.assume_class_range(ctx, oa)
+            v = engine.call(ctx, keyfn, [oa], {})
+            if isinstance(v, V.FractionV):
+                v = v.term
+            if isinstance(v, bool):
+                v = z3.BoolVal(v)
+            if not (isinstance(v, z3.ExprRef) and (z3.is_real(v) or z3.is_int(v) or z3.is_bool(v) or z3.is_string(v))):
+                raise EngineLimit("min/max with a key of unmodelled kind %r" % (v,))
+            keys.append(v)
+
+        normal = loops.summarise_block(engine, ctx, bind, run, lambda: None)
+        if not normal or len(normal) != len(keys):
+            raise EngineLimit("min/max with key: cannot summarise the key function")
+        sub = lambda t, u: z3.substitute(t, (a, u))
+        ctx.assume(z3.ForAll([x], z3.Implies(z3.Select(S, x), sub(z3.Or(*normal), x)), patterns=[z3.Select(S, x)]))
+        w = ctx.fresh("argbest", V.RefSort)
+        ctx.assume(z3.Select(S, w))
+
+        def num(t):
+            if z3.is_bool(t):
+                return z3.If(t, z3.RealVal(1), z3.RealVal(0))
+            return z3.ToReal(t) if z3.is_int(t) else t
+
+        for i, (ci, ki) in enumerate(zip(normal, keys)):
+            for j, (cj, kj) in enumerate(zip(normal, keys)):
+                both = z3.And(z3.Select(S, x), sub(ci, w), sub(cj, x))
+                if z3.is_string(ki) != z3.is_string(kj):
+                    # keys of different classes among the members: Python would raise TypeError - must be impossible
+                    s = z3.Solver()
+                    s.set("timeout", 3000)
+                    for f in list(ctx.pc) + list(ctx.axioms) + engine.relevant_prelude(list(ctx.pc) + [both]):
+                        s.add(f)
+                    s.add(both)
+                    if s.check() != z3.unsat:
+                        raise EngineLimit("min/max over members whose keys are of different classes")
+                    continue
+                if z3.is_string(ki):
+                    le = z3.Or(sub(ki, w) == sub(kj, x), sub(ki, w) < sub(kj, x)) if is_min else \
+                        z3.Or(sub(ki, w) == sub(kj, x), sub(kj, x) < sub(ki, w))
+                else:
+                    le = num(sub(ki, w)) <= num(sub(kj, x)) if is_min else num(sub(ki, w)) >= num(sub(kj, x))
+                ctx.assume(z3.ForAll([x], z3.Implies(both, le), patterns=[z3.Select(S, x)]))
+        res = anyk.wrap(ctx, w)
+        engine.assume_class_range(ctx, res)
+        return res
+
+    loops.argminmax_iter = argminmax_iter
+
+
+_install_argminmax()
